@@ -45,7 +45,11 @@ fn tree(idx: usize, c: &CaseSpec, with_fault: bool) -> TreeSpec {
     ta.v4 = vec![(Ipv4Addr::new(10, 0, 0, 0), 8), (Ipv4Addr::new(32, 1, 13, 0), 24)];
     ta.v6 = vec![("2001:db8::".parse().unwrap(), 31)];
     ta.asns = vec![(64496, 64600)];
-    ta.objs = vec![ObjSpec::roa("rta", 64496, "10.0.0.0", 16, 16)];
+    // besides its own space the TA has VRPs for the space it delegated to
+    // CA1 and CA2: they overlap a rejected CA's resources, which only the
+    // unsafe-vrps reject policy may hold against them
+    ta.objs = vec![ObjSpec::roa("rta", 64496, "10.0.0.0", 16, 16),
+        ObjSpec::roa("rov1", 64497, "10.1.0.0", 16, 16), ObjSpec::roa("rov2", 64498, "10.2.0.0", 16, 16)];
     let mut ca1 = CaSpec::new("ca1", 1, &hb, "repo");
     ca1.v4 = vec![(Ipv4Addr::new(10, 1, 0, 0), 16), (Ipv4Addr::new(32, 1, 13, 185), 32)];
     ca1.v6 = vec![("2001:db8::".parse().unwrap(), 32)];
@@ -212,8 +216,16 @@ fn run_case(gen: &Gen, dir: std::path::PathBuf, idx: usize, c: &CaseSpec) -> Res
     // CAs outside the faulty repository's subtree
     let unaffected: Vec<&str> = if c.in_b { vec!["ta0", "ca2"] } else { vec!["ta0", "ca1", "ca1c"] };
     let affected: Vec<&str> = if c.in_b { vec!["ca1", "ca1c"] } else { vec!["ca2"] };
-    let want = origins_of(&clean, &unaffected);
+    let mut want = origins_of(&clean, &unaffected);
     let mut maybe = origins_of(&clean, &affected);
+    if c.policy == FilterPolicy::Reject {
+        // documented: under reject, VRPs overlapping a rejected CA's
+        // resources may go - the TA's two covering VRPs are then undetermined
+        for o in want.clone() {
+            let asn = o.asn.into_u32();
+            if asn == 64497 || asn == 64498 { want.remove(&o); maybe.insert(o); }
+        }
+    }
     maybe.extend(origins_of(&faulty, &["deep1", "deep2", "deep3"]));
     let got: BTreeSet<RouteOrigin> = out.data.origins.iter().copied().filter(|o| !maybe.contains(o)).collect();
     let fmt = |s: &BTreeSet<RouteOrigin>| s.iter().map(data::fmt_origin).collect::<Vec<_>>();
@@ -267,8 +279,9 @@ pub fn run(ctx: &Ctx) -> Report {
         threads {1, 4}); oracle: the route origins of every CA outside the \
         faulty repository's subtree are exactly those of the fault-free \
         run, and the run succeeds (after at most the one documented \
-        retry); the CAs' resources are disjoint so the unsafe filter has \
-        nothing to remove - each of B and C also holds an IPv6 /32 while \
+        retry); the TA also publishes VRPs covering the space delegated \
+        to B and C, which must survive under accept (under reject they are \
+        left undetermined); otherwise the CAs' resources are disjoint - each of B and C also holds an IPv6 /32 while \
         the other holds the IPv4 host route with the same leading 32 bits \
         and a VRP for it, still disjoint; the depth limit is 3 and the \
         fault 'too deep' adds three nested, otherwise valid CAs below the \
